@@ -97,6 +97,7 @@ class WsPeer:
         self.sent_after_close = 0
         self.fail_accept = False   # the connection fails while the WebSocket is being accepted
         self.paused = False        # back-pressure: a write by the server does not complete until the client resumes reading
+        self.slow = False          # slow link: every write by the server is a scheduling point (it yields once before it completes)
 
     def send(self, frame):
         self.to_server.append(frame)
@@ -137,6 +138,9 @@ def make_ws_class(k):
             p = self.peer
             if p.paused:
                 k.block(lambda: not p.paused or p.client_closed, None, 'ws.send (back-pressure)')
+            elif p.slow:
+                once = []
+                k.block(lambda: bool(once) or once.append(1) or False, None, 'ws.send (slow link)')
             if p.client_closed or p.closed_by_server:
                 p.sent_after_close += 1
                 raise OSError('connection closed')
@@ -178,13 +182,36 @@ class Req:
 
 
 class _Secrets:
-    """Deterministic stand-in for ``secrets`` in engineio.base_server (C17 treats the random source symbolically)."""
+    """Deterministic stand-in for ``secrets`` in engineio.base_server (C17 treats the random source symbolically): every
+    function of the module that yields random material is derived from one constant byte pattern; anything else is the real
+    module's."""
     def __init__(self):
         self.n = 0
 
     def token_bytes(self, n=32):
         self.n += 1
+        n = 32 if n is None else n
         return (b'\x51\x6c\x3b' * ((n + 2) // 3))[:n]
+
+    def token_hex(self, n=32):
+        return self.token_bytes(n).hex()
+
+    def token_urlsafe(self, n=32):
+        import base64
+        return base64.urlsafe_b64encode(self.token_bytes(n)).rstrip(b'=').decode('ascii')
+
+    def randbits(self, k_):
+        return int.from_bytes(self.token_bytes((k_ + 7) // 8), 'big') >> ((-k_) % 8)
+
+    def randbelow(self, n):
+        return self.randbits(max(1, n.bit_length())) % n
+
+    def choice(self, seq):
+        return seq[self.randbelow(len(seq))]
+
+    def __getattr__(self, name):
+        import secrets as _real
+        return getattr(_real, name)
 
 
 class ThreadedSut:
@@ -242,7 +269,9 @@ class ThreadedSut:
     def environ(self, method, query, headers=None, body=b'', declared_len=None, scheme='http'):
         env = {'REQUEST_METHOD': method, 'QUERY_STRING': query, 'PATH_INFO': '/engine.io/',
                'wsgi.url_scheme': scheme, 'wsgi.input': Reader(body, self.reads), 'SERVER_NAME': 'sim'}
-        if declared_len is not None:
+        if declared_len == 'absent':
+            pass                    # no Content-Length header at all (chunked transfer encoding)
+        elif declared_len is not None:
             env['CONTENT_LENGTH'] = declared_len if isinstance(declared_len, str) else str(declared_len)
         elif method == 'POST':
             env['CONTENT_LENGTH'] = str(len(body))
